@@ -1132,6 +1132,8 @@ def find_in_ast(search, node):
                     cursor = _cursor[1]
                     if len(current_search) == 0:
                         return cursor
+                else:
+                    return None  # the named function has no such parameter; never fall through to another function
             elif (
                 isinstance(child_node, AnnAssign)
                 and isinstance(child_node.target, Name)
